@@ -59,8 +59,7 @@ Definition meta (x : sarr) : obs :=
   OMat [[zi (itemsize (s_kinds x))]; map zi (offsets (s_kinds x)); [zi 0; zi (itemsize (s_kinds x)); zi 8]].
 
 (* the model's prediction for converter `cid` *)
-Definition predict (len : bool) (sk : cfg_sk) (c : ccase) (cid : nat) : obs :=
-  let v := view_of sk (run sk (c_hist c) reg0) in
+Definition predict_v (len : bool) (v : nsview) (c : ccase) (cid : nat) : obs :=
   let names := c_names c in
   let nsp := c_nsp c in
   let a := c_data c in
@@ -92,6 +91,9 @@ Definition predict (len : bool) (sk : cfg_sk) (c : ccase) (cid : nat) : obs :=
   | _ => OErr
   end.
 
+Definition predict (len : bool) (sk : cfg_sk) (c : ccase) (cid : nat) : obs :=
+  predict_v len (view_of sk (run sk (c_hist c) reg0)) c cid.
+
 (* a dictionary holding one point as length-1 sequences (also lp -> dict -> lp of a one-point
    array): today's code raises (known finding), a repaired tree returns the array; both are
    accepted here, the direct predicate reports the former *)
@@ -107,6 +109,23 @@ Fixpoint mism_conv (sk : cfg_sk) (k : nat) (l : list ccase) : list nat :=
           (filter (fun p => negb (accept sk c (fst p) (nth (snd p) (c_uniq c) OErr))) (c_refs c))
       ++ mism_conv sk (S k) r
   end.
+
+(* staged cases: after EVERY operation of the history all converters are called again for the same
+   names and data (the converters read the registry, which fills its caches: RRead afterwards) *)
+Fixpoint staged_bad (sk : cfg_sk) (c : ccase) (r : reg) (k : nat)
+         (steps : list (rop * list obs * list (nat * nat))) : list nat :=
+  match steps with
+  | [] => []
+  | (o, uniq, refs) :: rest =>
+      let r1 := step sk r o in
+      let v := view_of sk r1 in
+      map (fun p => 64 * k + fst p)
+          (filter (fun p => negb (obs_eqb (predict_v false v c (fst p)) (nth (snd p) uniq OErr)
+                                  || obs_eqb (predict_v true v c (fst p)) (nth (snd p) uniq OErr))) refs)
+      ++ staged_bad sk c (read sk r1) (S k) rest
+  end.
+Definition chk_staged (sk : cfg_sk) (c : ccase * list (rop * list obs * list (nat * nat))) : bool :=
+  match staged_bad sk (fst c) reg0 0 (snd c) with [] => true | _ => false end.
 
 (* registry histories: the three visible lists at every RRead *)
 Fixpoint probes (sk : cfg_sk) (ops : list rop) (r : reg) : list (list string * list val * list kind) :=
